@@ -14,19 +14,19 @@ import (
 
 // FuncResult is the outcome of verifying one function (or lemma group).
 type FuncResult struct {
-	Name       string
-	Obligs     []*Oblig
-	Notes      []string
-	Err        string
-	Paths      int
-	Abstracted []string
-	Inlined    []string
-	ByContract []string
-	UserCalls  []string
-	Spawned    map[string]int
-	Decls      string
+	Name        string
+	Obligs      []*Oblig
+	Notes       []string
+	Err         string
+	Paths       int
+	Abstracted  []string
+	Inlined     []string
+	ByContract  []string
+	UserCalls   []string
+	Spawned     map[string]int
+	Decls       string
 	HasContract bool
-	Trusted    bool
+	Trusted     bool
 }
 
 func (w *World) addLockEdge(from, to, where string) {
@@ -81,7 +81,7 @@ func (w *World) declareSpecFun(x *Exec, sf *SpecFun) {
 }
 
 func (x *Exec) blankState() *State {
-	st := &State{heaps: map[string]Term{}, ghost: map[string]Term{}, fresh: map[string]bool{}, closures: map[string]*FuncVal{},
+	st := &State{heaps: map[string]Term{}, heapTop: map[string]Term{}, ghost: map[string]Term{}, fresh: map[string]bool{}, closures: map[string]*FuncVal{},
 		doneOf: map[string]Term{}, loopsEntered: map[*ssa.BasicBlock]bool{}, iters: map[string]*IterVal{}}
 	st.top = x.D.Const("top0", SInt)
 	return st
